@@ -76,7 +76,7 @@ ASSUMPTIONS = [
     "expressions in constructors are side-effect free except for the listed statement forms",
     "inputs given to apply-type methods are valid (validation of the arguments before the fitted-state check is not an error)",
     "no two parameters of one object alias the same mutable estimator",
-    "23 classes cannot be imported here (soft dependencies / unbuilt extensions): constructor contract, guards and fit writes are decided statically only",
+    "13 classes cannot be imported here (soft dependencies): constructor contract, guards and fit writes are decided statically only; classes needing the two unbuilt extension modules are imported over placeholder modules and never fitted",
 ]
 RULE = ("one table case per estimator class of the package (all, every run); tree cases = fixed-order exhaustive scope "
         "(every key of every depth-2 composition of the composite classes, quick: seed-rotated slice) + random compositions to depth 3 "
@@ -306,6 +306,43 @@ def compare_table(real, model):
     return True
 
 
+def _fixture_classes(cname):
+    """sktime classes of the estimators the fixture puts into the default instance of `cname`"""
+    out = set()
+
+    def walk(v, depth=0):
+        if depth > 4:
+            return
+        if hasattr(v, "get_params") and not isinstance(v, type):
+            out.add(type(v).__name__)
+            try:
+                for x in v.get_params(deep=False).values():
+                    walk(x, depth + 1)
+            except Exception:
+                pass
+        elif isinstance(v, (list, tuple)):
+            for x in v:
+                walk(x, depth + 1)
+    try:
+        for v in R.fixture_params(cname).values():
+            walk(v)
+    except Exception:
+        pass
+    return out
+
+
+def _ctor_broken(key):
+    """the constructor contract of this class already fails (static or observed)"""
+    T = build_table()
+    if key not in T["summary"]:
+        return False
+    st = static_of(key)
+    if any(v != "S" for v in st["ctor"].values()):
+        return True
+    o = _PROBE_CACHE.get(key)
+    return bool(o and o.get("ctor") and any(t not in ("S", "skip") for t in o["ctor"]))
+
+
 def oracle_table(case, real):
     """The property text, on what the running class did; for classes that cannot run, on the kernel-checked table."""
     T = build_table()
@@ -358,7 +395,8 @@ def oracle_table(case, real):
     elif not st["fresh"]:
         fails.append(("%s:fresh-is_fitted" % cname, "constructor of %s does not set _is_fitted = False (table)" % cname))
     # --- get/set/clone protocol on the default instance
-    if dyn and not abstract_proto:
+    broken_parts = sorted(k for k in _fixture_classes(cname) if k != cname and _ctor_broken(k))
+    if dyn and not abstract_proto and not broken_parts:
         if missing:
             pass      # get_params itself fails: already reported as <cls>:ctor:<param>
         elif r["rt"] not in ("ok", "skip"):
@@ -930,6 +968,38 @@ def _classes_in(node):
             yield from _classes_in(v)
 
 
+def spec_get_keys(node, pool):
+    """get_params(deep=True) of an abstract tree, written from the property text: every parameter under its own
+    name, `component__param` for every parameter of a component (a parameter value that is an estimator, or a
+    named component of a meta-estimator), components themselves under their names; later entries win."""
+    out = {}
+    if node[0] != "e":
+        return out
+    spec = pool.get(node[2], {})
+
+    def ref(v):
+        if v[0] == "a":
+            return "a%d" % v[1]
+        if v[0] == "e":
+            return "e%d" % v[1]
+        return "n[" + ",".join("%s:%s" % (k, "n" if x[0] == "n" else ref(x)) for k, x in v[1]) + "]"
+    for p in sorted(node[3]):
+        v = node[3][p]
+        if v[0] == "e":
+            for k, r in spec_get_keys(v, pool).items():
+                out[p + "__" + k] = r
+        out[p] = ref(v)
+    nm = spec.get("named")
+    if nm and nm in node[3] and node[3][nm][0] == "n":
+        for k, v in node[3][nm][1]:
+            out[k] = ref(v)
+        for k, v in node[3][nm][1]:
+            if v[0] == "e":
+                for k2, r in spec_get_keys(v, pool).items():
+                    out[k + "__" + k2] = r
+    return out
+
+
 def oracle_tree(case, real):
     """Property clauses that can be read off a single history without the model."""
     fails = []
@@ -941,6 +1011,35 @@ def oracle_tree(case, real):
         return fails
     outs = real.split(" ; ")
     cur_tree = case["tree"]
+    # nested form reads the component's parameter: get_params(deep=True) of the untouched composition
+    if case["ops"] and case["ops"][0] == "get:T" and outs and not outs[0].startswith("E:"):
+        try:
+            pool = pool_classes()
+            want = spec_get_keys(parse_tree(case["tree"]), pool)
+            got = dict(kv.split("=", 1) for kv in outs[0].split(",")) if outs[0] != "-" else {}
+            if got != want:
+                diff = sorted(set(got) ^ set(want)) or sorted(k for k in got if got[k] != want.get(k))
+                fails.append(("%s:get_params-deep" % root, "get_params(deep=True) of %s: keys/values differ from the nested-form "
+                              "specification at %s" % (root, ",".join(diff[:5]))))
+        except Exception:
+            pass
+    # nested form writes the component's parameter and only it: one valid key, then get_params
+    if len(case["ops"]) >= 2 and case["ops"][0].startswith("set:") and "|" not in case["ops"][0] and case["ops"][1] == "get:T" \
+            and len(outs) >= 2 and outs[0].startswith("ok") and not outs[1].startswith("E:"):
+        try:
+            pool = pool_classes()
+            k, _, vs = case["ops"][0][4:].partition("=")
+            before = spec_get_keys(parse_tree(case["tree"]), pool)
+            newv = parse_tree(vs)
+            if k in before and newv[0] == "a" and before[k].startswith("a"):
+                got = dict(kv.split("=", 1) for kv in outs[1].split(","))
+                want = dict(before)
+                want[k] = "a%d" % newv[1]
+                if got != want:
+                    diff = sorted(set(got) ^ set(want)) or sorted(x for x in got if got[x] != want.get(x))
+                    fails.append(("%s:nested-set" % root, "set_params(%s=...) on %s changed / missed: %s" % (k, root, ",".join(diff[:5]))))
+        except Exception:
+            pass
     for op, out in zip(case["ops"], outs):
         name, _, arg = op.partition(":")
         if out.startswith("E:op-"):
@@ -1104,7 +1203,7 @@ def gen_cases(tier, rng):
         off = rng.randrange(8)
         ex = [c for i, c in enumerate(ex) if i % 8 == off]
     cases.extend(ex)
-    n = 220 if tier == "quick" else 4000
+    n = 500 if tier == "quick" else 25000
     for i in range(n):
         g = Gen(rng, pool)
         depth = rng.choice([1, 2, 2, 3, 3])
